@@ -8,6 +8,8 @@ CONSTANTS
   MaxChopped = 2
   AllOrders = FALSE
   PassBound = 4
+  Rounds = 1
+  Cover = FALSE
 INVARIANT TypeOK
 INVARIANT PassBoundOK
 INVARIANT OutcomeOK
